@@ -3,7 +3,7 @@ from common import *
 from gen import C02
 import scripts
 
-THEOREMS = []
+THEOREMS = ['skip_step', 'success_all', 'converse_all', 'skip_value', 'skip_value_inv', 'skip_some_iff', 'preorder_length', 'skipOne_iff_read', 'skipOne_value', 'pnv_absent_iff', 'skip_absent_iff', 'skip_absent_iff_read', 'skip_ok_iff', 'skip_absent', 'skipAll_spec', 'skipAll_inv', 'skipAll_iff', 'skipAll_iff_readAll', 'skipAll_where_readAll', 'skip_deep', 'skipOne_runG_sound', 'parse_mono1']
 RULE = ("every input of the C02 stream (grammar trees, mutations, exhaustive small strings) is issued as skip_opt / skip / skip_one / "
         "skip_all and as the corresponding generic reads, at top level and inside definite / indefinite parents, 3 modes, with recording "
         "and rejecting filters; relational oracle on the implementation's own answers: same ok/none/error class and same number of octets "
@@ -118,5 +118,5 @@ def nontrivial(req, ans):
     return ans.startswith("ok") and "skipped" in ans
 
 LEVEL = "proof"
-LEVEL_TEXT = "see THEOREMS"
-LEVEL_NOTE = ""
+LEVEL_TEXT = ("Lean 4 theorems for EVERY source state without open capture, every Constructed state and mode, every filter and every saved-limit stack: the iterative skip_opt loop (explicit stack, one iteration per header: skip_step) walks over exactly what the X.690 grammar accepts - a value, the rest of a definite frame, the rest of an indefinite frame incl. end-of-contents - calling the filter once per nested value with its tag, constructed flag and depth in encoding order (preorder), ending with a content error if the filter rejects, and otherwise landing exactly at the grammar's position with the limit restored (success_all, by induction on grammar fuel for all stacks); conversely every successful run factors through a grammar parse (converse_all, strong induction on loop fuel). Hence skip_opt returns Some(()) iff generic reading of the next value succeeds, with the same Constructed and the same advance (skip_some_iff, skipOne_iff_read), reports absence exactly where take_opt_value does, for any closure (skip_absent_iff_read), the mandatory skip turns absence into a content error (skip_ok_iff, skip_absent), and skip_all ends exactly where readAll ends in definite, indefinite and top-level content (skipAll_iff, skipAll_iff_readAll); k nested indefinite values need 2k+1 loop iterations and no recursion (skip_deep). Correspondence: skip vs read on ~100k structured / damaged inputs with traced filters, rejecting filters, 100000-level nestings on a 256 KiB stack.")
+LEVEL_NOTE = ("Trusted: Lean 4.33 kernel; axioms propext, Classical.choice, Quot.sound only; the hand-written model (lean/Bcder/Model/Content.lean: popLoop, skipLoop, skipOpt, skipOne, skipAll) tied to /repo on every run by differential correspondence; grammar lean/Bcder/Spec/Tlv.lean. Call-stack use is a property of the Rust code (a loop with a SmallVec stack); the model mirrors it as a fuel-driven tail loop whose fuel need is the header count, and the deep-nesting runs of the implementation driver check the real stack. When the grammar rejects, the theorems show the run fails but do not pin the error value (content vs the model's fuel marker). Open capture frames are C11's territory.")
